@@ -176,6 +176,7 @@ func (m *CPU) Run(app risc.Application) (int, error) {
 					for !wu.isEmpty() || !m.writeBus.IsEmpty() {
 						m.ctx.VerifTick(3, cycle)
 						_ = wu.Cycle(wuReq{m.ctx, sequenceID})
+						m.writeBus.Connect(cycle + 1)
 					}
 				}
 				if isEmpty {
